@@ -98,6 +98,7 @@ def gen_program(rng, size: int = 10, with_args: bool = True, control_flow: bool 
             "range", "const_of_shape", "size", "identity", "unsqueeze", "if", "binary_arg", "concat_from_seq",
             "arg_default", "arg_default", "seq_pair", "opt_pair",
             "inline0", "inline0", "intdiv", "intdiv", "intdiv_shape", "intdiv_shape",
+            "intros", "intros", "unsafe", "inline_const", "inline_const",
         ])
         if choice == "const":
             new_const()
@@ -313,6 +314,36 @@ def gen_program(rng, size: int = 10, with_args: bool = True, control_flow: bool 
                 j = pick(lambda v: is_num(v) and v.shape == [3] and v.dt == "i64")
                 emit({"op": "inline", "args": [i, j]}, _V("tensor", "i64", [3], vs[i].const and vs[j].const),
                      _V("tensor", "i64", [3], vs[i].const and vs[j].const))
+        elif choice == "intros":
+            # spox._internal_op.intros / intro: aliases with a shared dependency. A non-constant Var standing
+            # *before* constants of the same dtype / shape (a slot shift would hand it a "constant").
+            i = pick(is_t)
+            if i is not None:
+                v = vs[i]
+                same = lambda w: is_t(w) and w.dt == v.dt and w.shape == v.shape  # noqa: E731
+                group = [i]
+                if v.dt in NUM + ["bool", "str"]:
+                    group += [new_const(v.dt, v.shape, "value") for _ in range(rng.randrange(1, 3))]
+                if with_args and v.dt in NUM and rng.random() < 0.7:
+                    group.insert(rng.randrange(0, len(group)), new_arg(v.dt, v.shape))
+                j = pick(same)
+                if j is not None and rng.random() < 0.5:
+                    group.insert(rng.randrange(0, len(group) + 1), j)
+                emit({"op": "intros" if rng.random() < 0.7 else "intro", "args": group},
+                     *([_V(vs[g].kind, vs[g].dt, vs[g].shape, vs[g].const, vs[g].elem) for g in group]))
+                if steps[-1]["op"] == "intro":  # only the last alias is returned
+                    del vs[len(vs) - len(group):len(vs) - 1]
+        elif choice == "unsafe":
+            # unsafe_reshape / unsafe_cast to a type the value really has (they copy the propagated value)
+            i = pick(lambda v: is_t(v) and v.dt in NUM and control_flow)
+            if i is not None:
+                v = vs[i]
+                shp = [d if rng.random() < 0.6 else None for d in v.shape]
+                emit({"op": rng.choice(["unsafe_reshape", "unsafe_cast"]), "args": [i], "dt": v.dt, "shape": shp},
+                     _V("tensor", v.dt, v.shape, v.const))
+        elif choice == "inline_const":
+            # a model WITHOUT graph inputs (constants only), inlined with no arguments
+            emit({"op": "inline_const", "data": [rng.randrange(-4, 9) for _ in range(3)]}, _V("tensor", "i64", [3], True))
         elif choice == "inline0":
             # a node-less pass-through model (its outputs are its inputs) inlined on a constant / any tensor
             i = pick(lambda v: is_t(v) and v.dt in NUM + ["bool"] and (v.const or rng.random() < 0.3))
@@ -393,6 +424,20 @@ def _inline_model():
 
 
 _PASSTHROUGH: dict = {}
+_CONSTMODEL: dict = {}
+
+
+def _constant_model(data: tuple):
+    """A model without graph inputs: y = Constant(data) * 2 (int64)."""
+    import onnx
+    import onnx.helper as oh
+
+    if data not in _CONSTMODEL:
+        c = oh.make_node("Constant", [], ["c"], value=oh.make_tensor("c", onnx.TensorProto.INT64, [len(data)], list(data)))
+        m = oh.make_node("Add", ["c", "c"], ["y"])
+        g = oh.make_graph([c, m], "constmodel", [], [oh.make_tensor_value_info("y", onnx.TensorProto.INT64, [len(data)])])
+        _CONSTMODEL[data] = oh.make_model(g, opset_imports=[oh.make_operatorsetid("", 17)])
+    return _CONSTMODEL[data]
 
 
 def _passthrough_model(dt: str, shape: tuple):
@@ -447,6 +492,24 @@ def apply_step(step: dict, vars_: list) -> list:
         return [getattr(op, o)(a[0])]
     if o == "mod":
         return [op.mod(a[0], a[1], fmod=step["fmod"])]
+    if o == "intros":
+        from spox._internal_op import intros
+
+        return list(intros(*a))
+    if o == "intro":
+        from spox._internal_op import intro
+
+        return [intro(*a)]
+    if o == "unsafe_reshape":
+        from spox._internal_op import unsafe_reshape
+
+        return [unsafe_reshape(a[0], tuple(step["shape"]))]
+    if o == "unsafe_cast":
+        from spox._internal_op import unsafe_cast
+
+        return [unsafe_cast(a[0], Tensor(_NP[step["dt"]], tuple(step["shape"])))]
+    if o == "inline_const":
+        return list(inline(_constant_model(tuple(step["data"])))().values())
     if o == "inline0":
         return list(inline(_passthrough_model(step["dt"], tuple(step["shape"])))(x=a[0]).values())
     if o in ("add", "sub", "mul", "div", "equal", "less", "reshape", "expand", "tile", "sequence_at"):
@@ -670,7 +733,7 @@ def c07_check_program(steps: list, sel: str, seed: int) -> dict:
             opn = steps[r["step_of_var"][i]]["op"]
             if L.has_value(v):
                 stats["compared"] += 1
-                if opn in ("topk", "split", "unique", "inline", "inline0"):
+                if opn in ("topk", "split", "unique", "inline", "inline0", "intros"):
                     stats["multi"] += 1
                 why = values_equal(v._get_value(), o)
                 if why:
@@ -859,8 +922,8 @@ def _const_array(step):
 def record_history(steps: list, sel: str, script=None, at: str = "run") -> dict:
     """Run the program and describe it as a model history (`VP.Step` list) together with the values
     the real code attached. Programs with control flow are not described (returns {"skip": ...})."""
-    if any(st["op"] == "if" for st in steps):
-        return {"skip": "control flow"}
+    if any(st["op"] in ("if", "unsafe_reshape", "unsafe_cast") for st in steps):
+        return {"skip": "control flow / unsafe_* (outside the history model)"}
     reg = L.PidRegistry()
     nonconf: list = []
     vars_: list = []
